@@ -265,7 +265,13 @@ class SSHChannel(Generic[AnyStr], SSHPacketHandler):
     def _discard_recv(self) -> None:
         """Discard unreceived data and clean up if close received"""
 
-        # Discard unreceived data
+        # Discard unreceived data, returning its window space to the peer
+        # (a no-op once our close has been sent) so the peer is able to
+        # flush its own pending data and close
+        if self._recv_buf_len:
+            self.send_packet(MSG_CHANNEL_WINDOW_ADJUST,
+                             UInt32(self._recv_buf_len))
+
         self._recv_buf = []
         self._recv_buf_len = 0
         self._recv_paused = False
@@ -408,6 +414,8 @@ class SSHChannel(Generic[AnyStr], SSHPacketHandler):
             return
 
         if self._send_state in {'close_pending', 'closed'}:
+            # Return the window space of the dropped data to the peer
+            self.send_packet(MSG_CHANNEL_WINDOW_ADJUST, UInt32(len(data)))
             return
 
         if self._recv_paused:
